@@ -26,7 +26,7 @@ pub fn run(run: &mut Run) {
     let seed = run.seed;
     let rc = run.replay_case();
     let verbose = rc.is_some();
-    let n_rnd: u64 = if thorough { 3_000_000 } else { 100_000 };
+    let n_rnd: u64 = if thorough { 3_000_000 } else { 400_000 };
     let pool = fixed_pool();
     run.parallel(|w, nw, acc| {
         for i in my_cases(rc, STREAM_POOL, pool.len() as u64 * 5, w, nw) {
